@@ -24,12 +24,14 @@ TRANSPARENT_CALLS = {
 
 
 class Sym:
-    def __init__(self, prog, inline_depth=4, max_depth=40, force_inline=()):
+    def __init__(self, prog, inline_depth=4, max_depth=40, force_inline=(), auto_inline=True):
         self.prog = prog
         self.inline_depth = inline_depth
         self.max_depth = max_depth
         # defs inlined whatever the shape of their CFG (their return value becomes a phi of its definitions)
         self.force_inline = set(force_inline)
+        # auto_inline=False: only the forced defs are inlined (straight-line callees stay calls)
+        self.auto_inline = auto_inline
 
     # ---- entry points
     def operand(self, body, op, env=None, depth=0, inl=0, visiting=None):
@@ -139,7 +141,7 @@ class Sym:
         if t["callee"].get("res") in ("unresolved", "virtual"):
             return ("call", orig, args)
         cb = self.prog.bodies.get(name)
-        if cb is not None and inl < self.inline_depth and (straight_line(cb) or name in self.force_inline):
+        if cb is not None and inl < self.inline_depth and ((self.auto_inline and straight_line(cb)) or name in self.force_inline):
             r = self.local(cb, 0, env=list(args), depth=depth, inl=inl + 1, visiting=visiting)
             if not _has_unknown(r):
                 return r
